@@ -578,8 +578,13 @@ tx_outs:\n{tx_outs}
         """Returns whether the input has a valid signature"""
         # get the relevant input
         tx_in = self.tx_ins[input_index]
+        script_pubkey = tx_in.script_pubkey(self.network)
+        if script_pubkey.is_witness_script() or script_pubkey.is_p2tr():
+            # BIP141: the ScriptSig of a native witness program has to be empty
+            if len(tx_in.script_sig.commands) > 0:
+                return False
         # combine the scripts
-        combined_script = tx_in.script_sig + tx_in.script_pubkey(self.network)
+        combined_script = tx_in.script_sig + script_pubkey
         # evaluate the combined script
         return combined_script.evaluate(self, input_index)
 
